@@ -63,19 +63,70 @@ def check_lost(real, outdir_arg, cwd, before, after, fresh_tree, ret):
     return None
 
 
-def lost_case(runner, r, oc, reqs, pend, big=False):
-    model = genlib.rand_model(r, ("sm", "sm", "sm", "proto"), big)
+BLOCKS = {"guard": ("PER_GUARD", "GUARDNAME", (4,)), "action": ("PER_ACTION", "ACTIONNAME", (3,)),
+          "state": ("PER_STATE", "STATENAME", (0, 2)), "event": ("PER_EVENT", "EVENTNAME", (1,))}
+
+
+def write_user_templates(r, tpl):
+    """a user template directory: per-element blocks whose USER tags are model-derived; some files carry
+    no fixed tag at all, so a model change can make every tag of a file vanish.  Returns the kinds used."""
+    os.makedirs(tpl)
+    used = set()
+    for i in range(r.randint(1, 3)):
+        kinds = r.sample(sorted(BLOCKS), r.choice([1, 1, 2]))
+        used |= set(kinds)
+        body = "#pragma once\n"
+        if r.random() < 0.4:
+            body += "/// {{{USER_HEADER_INCLUDES}}}\n/// {{{USER_HEADER_INCLUDES}}}\n"
+        for k in kinds:
+            blk, nm, _ = BLOCKS[k]
+            sfx = r.choice(["", "_body", "_%d" % i])
+            body += ("    <<<%s_BEGIN>>>\n    void <<<%s>>>%s()\n    {\n        /// {{{USER_<<<%s>>>%s}}}\n        /// {{{USER_<<<%s>>>%s}}}\n    }\n    <<<%s_END>>>\n"
+                     % (blk, nm, sfx, nm, sfx, nm, sfx, blk))
+        body += "// end\n"
+        with open(os.path.join(tpl, "TEMPLATEPart%d.h" % i), "w") as f:
+            f.write(body)
+    return sorted(used)
+
+
+def rename_all(r, model, kind):
+    """rename every element of one kind: all tags derived from that kind vanish at once"""
+    import copy
+    m = copy.deepcopy(model)
+    cols = BLOCKS[kind][2]
+    sfx = r.choice(["X", "2", "Renamed"])
+    olds = {row[c] for row in m["tt"] for c in cols if row[c] and row[c].lower() != "none"}
+    for row in m["tt"]:
+        for c in cols:
+            if row[c] in olds:
+                row[c] = row[c] + sfx
+    if kind == "event":
+        m["iface"]["structs"] = [((s + sfx if s in olds else s), mem) for s, mem in m["iface"]["structs"]]
+    return m, "rename-all-%ss" % kind
+
+
+def lost_case(runner, r, oc, reqs, pend, big=False, user_templates=False):
+    model = genlib.rand_model(r, ("sm",) if user_templates else ("sm", "sm", "sm", "proto"), big)
     with scratch() as base:
+        kinds = []
+        if user_templates:
+            model["templatedir"] = os.path.join(base, "tpl")
+            kinds = write_user_templates(r, model["templatedir"])
         outdir_arg, cwd = genlib.rand_outdir_spelling(r, base)
         real = os.path.join(base, "out")
         hist = dict(models=[model], outdir=outdir_arg, cwd=cwd, mutations=[])
+        if user_templates:
+            hist["templates"] = {n: open(os.path.join(model["templatedir"], n)).read() for n in sorted(os.listdir(model["templatedir"]))}
         with e2e.in_cwd(cwd):
             runner.generate(model, outdir_arg)
             for step in range(r.choice([1, 2])):
                 for rel, data in sorted(e2e.snapshot(real).items()):
                     if not rel.endswith(".LostCode.txt"):
                         genlib.edit_file(r, os.path.join(real, rel), fraction=0.8)
-                model, what = genlib.mutate_model(r, model)
+                if kinds and r.random() < 0.7:
+                    model, what = rename_all(r, model, r.choice(kinds))
+                else:
+                    model, what = genlib.mutate_model(r, model)
                 hist["models"].append(model)
                 hist["mutations"].append(what)
                 before = e2e.snapshot(real)
@@ -87,7 +138,7 @@ def lost_case(runner, r, oc, reqs, pend, big=False):
                 after = e2e.snapshot(real)
                 # every file the generator reports must exist where it says
                 msg = check_lost(real, outdir_arg, cwd, before, after, fresh_tree, ret)
-                outside = [p for p in e2e.snapshot(base) if not p.startswith("out" + os.sep) and not p.startswith("other")]
+                outside = [p for p in e2e.snapshot(base) if not p.startswith("out" + os.sep) and not p.startswith("other") and not p.startswith("tpl" + os.sep)]
                 if not msg and outside:
                     msg = "files written outside the output directory: %s" % outside[:3]
                 if msg:
@@ -95,6 +146,13 @@ def lost_case(runner, r, oc, reqs, pend, big=False):
                     return
                 nlost = sum(1 for k in after if k.endswith(".LostCode.txt") and after[k] != before.get(k))
                 oc.stat("steps_with_lostcode" if nlost else "steps_without_lostcode")
+                if user_templates:
+                    oc.stat("user_template_steps")
+                    allgone = [rel for rel, d in before.items() if not rel.endswith(".LostCode.txt") and rel in fresh_tree
+                               and genlib.spec_blocks(d.decode("utf-8", "surrogateescape"))[0]
+                               and not set(genlib.spec_blocks(d.decode("utf-8", "surrogateescape"))[0]) & set(genlib.spec_blocks(fresh_tree[rel].decode("utf-8", "surrogateescape"))[0])]
+                    if allgone:
+                        oc.stat("files_whose_every_tag_vanished", len(allgone))
                 oc.stat("outdir_" + ("abs" if os.path.isabs(outdir_arg) else "rel"))
                 if fresh is not None:
                     reqs.append(e2e.regen_request(cwd, outdir_arg, files_before, fresh))
@@ -170,6 +228,7 @@ def search():
     oc = Outcome(PROP)
     for i in range(120):
         lost_case(runner, r, oc, [], [])
+        lost_case(runner, r, oc, [], [], user_templates=True)
         bytes_case(runner, r, oc, [], [])
         if oc.violations:
             return oc.violations[0]
@@ -182,6 +241,7 @@ def run(tier):
     proof = proof_status(PROP, thorough)
     oc = Outcome(PROP)
     oc.rule = ("lost: chains of model mutations with user text in 80% of the tag pairs, output directory spelled absolute / relative / './x/' / 'x//' / '../x' from other cwd; "
+               "also user template directories whose USER tags are all model-derived (per state / event / action / guard), with every element of a kind renamed at once, so that all tags of a file vanish; "
                "oracle: every non-empty block whose tag vanished is in <file>.LostCode.txt next to the file, labelled, complete, listed in the return value, nothing spurious; "
                "bytes: Latin-1 / UTF-16 / NUL / invalid UTF-8 inside user blocks, regeneration must be byte-identical; every step also through the Lean pipeline model")
     oc.assumptions = TRUSTED
@@ -192,6 +252,10 @@ def run(tier):
         lost_case(runner, r, oc, reqs, pend, big=thorough)
         if oc.violations:
             break
+    for i in range(120 if thorough else 20):
+        if oc.violations:
+            break
+        lost_case(runner, r, oc, reqs, pend, big=thorough, user_templates=True)
     for i in range(150 if thorough else 25):
         if oc.violations:
             break
